@@ -15,4 +15,5 @@ if k!=1: sys.exit("mutation pattern did not match exactly once: "+pat)
 open(copy,'w').write(n)
 PY
 echo "{\"Replace\": {\"/repo/$f\": \"$copy\"}}" > /verif/.scratch/mut/overlay.json
+export VERIF_EVIDENCE_DIR=/verif/.scratch/seed-evidence; mkdir -p "$VERIF_EVIDENCE_DIR"
 VERIF_OVERLAY=/verif/.scratch/mut/overlay.json /verif/run "$@"
